@@ -174,7 +174,8 @@ theorem step_fixed_no_panic (s : St) (a : Step) : (step true s a).isPanic = fals
     split
     · exact okH_fixed_ne_panic _ _ _ (removeFromPQ_fixed_some _ _)
     · rfl
-  | reqPop c o d => simp only [step]; split <;> rfl
+  | reqPop c o d => simp only [step]; repeat' split
+                    all_goals rfl
   | reqRemove o =>
     simp only [step]
     split
@@ -187,7 +188,8 @@ theorem step_fixed_no_panic (s : St) (a : Step) : (step true s a).isPanic = fals
       · rfl
       · split <;> rfl
     · rfl
-  | touchPop c o => simp only [step]; split <;> rfl
+  | touchPop c o => simp only [step]; repeat' split
+                    all_goals rfl
   | touchRemove o =>
     simp only [step]
     split
@@ -196,24 +198,38 @@ theorem step_fixed_no_panic (s : St) (a : Step) : (step true s a).isPanic = fals
   | touchMapPush o p =>
     simp only [step]
     split
-    · split <;> rfl
+    · split
+      · rfl
+      · split
+        · obtain ⟨s', h, _⟩ := push_some { s.h with objs := setPri s.h.objs o p } o
+          exact okH_fixed_ne_panic _ _ _ ⟨s', h⟩
+        · rfl
     · rfl
   | touchPQPush o =>
     simp only [step]
     split
-    · obtain ⟨s', h, _⟩ := push_some s.h o
-      exact okH_fixed_ne_panic _ _ _ ⟨s', h⟩
+    · split
+      · rfl
+      · obtain ⟨s', h, _⟩ := push_some s.h o
+        exact okH_fixed_ne_panic _ _ _ ⟨s', h⟩
     · rfl
   | startMapPush c o p =>
     simp only [step]
     split
-    · split <;> rfl
+    · split
+      · rfl
+      · split
+        · obtain ⟨s', h, _⟩ := push_some { s.h with objs := setDeliver s.h.objs o c p } o
+          exact okH_fixed_ne_panic _ _ _ ⟨s', h⟩
+        · rfl
     · rfl
   | startPQPush o =>
     simp only [step]
     split
-    · obtain ⟨s', h, _⟩ := push_some s.h o
-      exact okH_fixed_ne_panic _ _ _ ⟨s', h⟩
+    · split
+      · rfl
+      · obtain ⟨s', h, _⟩ := push_some s.h o
+        exact okH_fixed_ne_panic _ _ _ ⟨s', h⟩
     · rfl
   | scanPeek t =>
     simp only [step]
@@ -228,7 +244,8 @@ theorem step_fixed_no_panic (s : St) (a : Step) : (step true s a).isPanic = fals
     simp only [step]
     repeat' split
     all_goals rfl
-  | emptyResetInflight => simp only [step]; split <;> rfl
+  | emptyResetInflight => simp only [step]; repeat' split
+                          all_goals rfl
   | emptyResetDeferred => simp only [step]; split <;> rfl
   | emptyRest => simp only [step]; split <;> rfl
   | deferMapPush o =>
@@ -238,7 +255,8 @@ theorem step_fixed_no_panic (s : St) (a : Step) : (step true s a).isPanic = fals
     · rfl
   | deferPQPush o p =>
     simp only [step]
-    split <;> rfl
+    repeat' split
+    all_goals rfl
   | dscanPeek t =>
     simp only [step]
     split
@@ -453,13 +471,16 @@ theorem peekAndShift_indexOK (s : HS) (t : Int) (r : HS × Option Nat) (ok : Ind
         exact (pop_indexOK s r' ok hr').1
   · cases h; exact ok
 
-/-- the step pushes object `o` onto the heap -/
-def pushes (a : Step) (o : Nat) : Prop := a = Step.startPQPush o ∨ a = Step.touchPQPush o
+/-- the step pushes object `o` onto the heap (shape without F48: the separate heap-push sections; with F48
+(`pushAtomic`): the section that inserts into the map) -/
+def pushes (s : St) (a : Step) (o : Nat) : Prop :=
+  (s.pushAtomic = false ∧ (a = Step.startPQPush o ∨ a = Step.touchPQPush o)) ∨
+  (s.pushAtomic = true ∧ ((∃ c p, a = Step.startMapPush c o p) ∨ ∃ p, a = Step.touchMapPush o p))
 
 /-- `IndexOK` is preserved by every micro-step of the patched code, provided the step does not push an
 object that is already in the heap — the only way the index fields can go wrong -/
 theorem step_indexOK (s s' : St) (a : Step) (ok : IndexOK s.h) (h : step true s a = Res.ok s')
-    (hnodup : ∀ o, pushes a o → o ∉ s.h.pq) : IndexOK s'.h := by
+    (hnodup : ∀ o, pushes s a o → o ∉ s.h.pq) : IndexOK s'.h := by
   cases a with
   | finPop c o => simp only [step] at h; split at h <;> (cases h; exact ok)
   | finRemove o =>
@@ -470,7 +491,10 @@ theorem step_indexOK (s s' : St) (a : Step) (ok : IndexOK s.h) (h : step true s 
       · cases h
       · rename_i h1 hr; cases h; exact removeFromPQ_indexOK _ _ _ ok hr
     · cases h
-  | reqPop c o d => simp only [step] at h; split at h <;> (cases h; exact ok)
+  | reqPop c o d =>
+    simp only [step] at h
+    repeat' split at h
+    all_goals first | (cases h; exact ok) | cases h
   | reqRemove o =>
     simp only [step] at h
     split at h
@@ -483,7 +507,10 @@ theorem step_indexOK (s s' : St) (a : Step) (ok : IndexOK s.h) (h : step true s 
     simp only [step] at h
     repeat' split at h
     all_goals first | (cases h; exact ok) | cases h
-  | touchPop c o => simp only [step] at h; split at h <;> (cases h; exact ok)
+  | touchPop c o =>
+    simp only [step] at h
+    repeat' split at h
+    all_goals first | (cases h; exact ok) | cases h
   | touchRemove o =>
     simp only [step] at h
     split at h
@@ -493,34 +520,60 @@ theorem step_indexOK (s s' : St) (a : Step) (ok : IndexOK s.h) (h : step true s 
       · rename_i h1 hr; cases h; exact removeFromPQ_indexOK _ _ _ ok hr
     · cases h
   | touchMapPush o p =>
+    have okp : IndexOK { s.h with objs := setPri s.h.objs o p } :=
+      indexOK_objs_congr s.h _ ok (fun o' _ => by simp only [setPri]; split <;> rfl)
     simp only [step] at h
-    repeat' split at h
-    all_goals first
-      | (cases h; exact indexOK_objs_congr s.h _ ok (fun o' _ => by simp only [setPri]; split <;> rfl))
-      | cases h
+    split at h
+    · split at h
+      · cases h; exact okp
+      · split at h
+        · rename_i hpa
+          unfold okH at h
+          split at h
+          · cases h
+          · rename_i h1 hr; cases h
+            exact push_indexOK _ _ _ okp (hnodup o (Or.inr ⟨hpa, Or.inr ⟨p, rfl⟩⟩)) hr
+        · cases h; exact okp
+    · cases h
   | touchPQPush o =>
     simp only [step] at h
     split at h
-    · unfold okH at h
-      split at h
-      · cases h
-      · rename_i h1 hr; cases h
-        exact push_indexOK _ _ _ ok (hnodup o (Or.inr rfl)) hr
+    · split at h
+      · cases h; exact ok
+      · rename_i hpa
+        unfold okH at h
+        split at h
+        · cases h
+        · rename_i h1 hr; cases h
+          exact push_indexOK _ _ _ ok (hnodup o (Or.inl ⟨by simpa using hpa, Or.inr rfl⟩)) hr
     · cases h
   | startMapPush c o p =>
+    have okp : IndexOK { s.h with objs := setDeliver s.h.objs o c p } :=
+      indexOK_objs_congr s.h _ ok (fun o' _ => by simp only [setDeliver]; split <;> rfl)
     simp only [step] at h
-    repeat' split at h
-    all_goals first
-      | (cases h; exact indexOK_objs_congr s.h _ ok (fun o' _ => by simp only [setDeliver]; split <;> rfl))
-      | cases h
+    split at h
+    · split at h
+      · cases h; exact okp
+      · split at h
+        · rename_i hpa
+          unfold okH at h
+          split at h
+          · cases h
+          · rename_i h1 hr; cases h
+            exact push_indexOK _ _ _ okp (hnodup o (Or.inr ⟨hpa, Or.inl ⟨c, p, rfl⟩⟩)) hr
+        · cases h; exact okp
+    · cases h
   | startPQPush o =>
     simp only [step] at h
     split at h
-    · unfold okH at h
-      split at h
-      · cases h
-      · rename_i h1 hr; cases h
-        exact push_indexOK _ _ _ ok (hnodup o (Or.inl rfl)) hr
+    · split at h
+      · cases h; exact ok
+      · rename_i hpa
+        unfold okH at h
+        split at h
+        · cases h
+        · rename_i h1 hr; cases h
+          exact push_indexOK _ _ _ ok (hnodup o (Or.inl ⟨by simpa using hpa, Or.inl rfl⟩)) hr
     · cases h
   | scanPeek t =>
     simp only [step] at h
@@ -539,14 +592,19 @@ theorem step_indexOK (s s' : St) (a : Step) (ok : IndexOK s.h) (h : step true s 
     simp only [step] at h
     split at h
     · cases h
-    · cases h; intro i hi; simp at hi
+    · split at h
+      · cases h
+      · cases h; intro i hi; simp at hi
   | emptyResetDeferred => simp only [step] at h; split at h <;> first | (cases h; exact ok) | cases h
   | emptyRest => simp only [step] at h; split at h <;> first | (cases h; exact ok) | cases h
   | deferMapPush o =>
     simp only [step] at h
     repeat' split at h
     all_goals first | (cases h; exact ok) | cases h
-  | deferPQPush o p => simp only [step] at h; split at h <;> first | (cases h; exact ok) | cases h
+  | deferPQPush o p =>
+    simp only [step] at h
+    repeat' split at h
+    all_goals first | (cases h; exact ok) | cases h
   | dscanPeek t =>
     simp only [step] at h
     repeat' split at h
@@ -582,7 +640,7 @@ theorem step_indexOK (s s' : St) (a : Step) (ok : IndexOK s.h) (h : step true s 
 def NoDupPush : St → List Step → Prop
   | _, [] => True
   | s, a :: as =>
-    (∀ o, pushes a o → o ∉ s.h.pq) ∧
+    (∀ o, pushes s a o → o ∉ s.h.pq) ∧
       match step true s a with
       | Res.ok s' => NoDupPush s' as
       | _ => True
